@@ -1,4 +1,5 @@
 import TinyFlux.Audit.Tool
 import TinyFlux.Props.C12
 import TinyFlux.Props.C12EndToEnd
+import TinyFlux.Props.C12State
 #audit TinyFlux.Props.C12
